@@ -458,3 +458,82 @@ def fold_struct_layout(repo: Repo, max_len: int = 2) -> dict | None:
         return None
     except (TypeError, KeyError, IndexError, ValueError, AttributeError):
         return None
+
+
+def fold_base_array(repo: Repo) -> dict | None:
+    """BaseArray._read / _write over the count kinds: how many elements are requested from the element type, and which writes are refused."""
+    from .codecfold import _module_constant
+
+    rd = repo.func("types/base.py", "BaseArray._read")
+    wr = repo.func("types/base.py", "BaseArray._write")
+    out: dict = {"cases": 0, "read_bad": [], "write_bad": []}
+    try:
+        eof = _module_constant(repo, "types/base.py", "EOF", {})
+        expr_cls = Sym("Expression")
+
+        def isinst(o, k):
+            if k is int:
+                return isinstance(o, int) and not isinstance(o, bool)
+            if k == expr_cls:
+                return isinstance(o, Sym) and o.label.startswith("expr:")
+            raise Refused("isinstance against an unknown class")
+
+        def expression(text: str, value):
+            def evaluate(context=None):
+                if isinstance(value, Exception):
+                    raise value
+                return value
+            return Sym(f"expr:{text}", {"expression": text}, {"evaluate": Host(evaluate)})
+
+        reads = {
+            "x[3]": ({"num_entries": 3, "null_terminated": False, "dynamic": False}, ("_read_array", 3)),
+            "x[0]": ({"num_entries": 0, "null_terminated": False, "dynamic": False}, ("_read_array", 0)),
+            "x[-2] (count from a constant expression)": ({"num_entries": -2, "null_terminated": False, "dynamic": False}, ("_read_array", 0)),
+            "x[]": ({"num_entries": None, "null_terminated": True, "dynamic": True}, ("_read_0", None)),
+            "x[n] with n = 5": ({"num_entries": expression("n", 5), "null_terminated": False, "dynamic": True}, ("_read_array", 5)),
+            "x[n] with n = 0": ({"num_entries": expression("n", 0), "null_terminated": False, "dynamic": True}, ("_read_array", 0)),
+            "x[n - 4] with n = 1": ({"num_entries": expression("n - 4", -3), "null_terminated": False, "dynamic": True}, ("_read_array", 0)),
+            "x[EOF]": ({"num_entries": expression("EOF", ValueError("unknown name EOF")), "null_terminated": False, "dynamic": True}, ("_read_array", eof)),
+            "x[m] with m unknown": ({"num_entries": expression("m", ValueError("unknown name m")), "null_terminated": False, "dynamic": True}, "raise"),
+        }
+        env = {"isinstance": Host(isinst), "Expression": expr_cls, "EOF": eof, "int": int}
+        for label, (attrs, want) in reads.items():
+            calls: list = []
+            elem = Sym("elem", {}, {"_read_array": Host(lambda s, n, c=None, calls=calls: calls.append(("_read_array", n)) or ["<elements>"]),
+                                    "_read_0": Host(lambda s, c=None, calls=calls: calls.append(("_read_0", None)) or ["<elements>"])})
+            cls = Sym("arr", {"type": elem, **attrs})
+            try:
+                Evaluator(env, steps=2000).call_user(UserFunc(rd.node), [cls, Sym("stream"), {"n": 1}], {})
+                got: Any = calls[0] if len(calls) == 1 else calls
+            except (Raised, ValueError):
+                got = "raise"
+            out["cases"] += 1
+            if got != want:
+                out["read_bad"].append((label, got, want))
+        writes = {
+            "x[3] given 3 elements": ({"num_entries": 3, "null_terminated": False, "dynamic": False}, [1, 2, 3], "_write_array"),
+            "x[3] given 2 elements": ({"num_entries": 3, "null_terminated": False, "dynamic": False}, [1, 2], "raise"),
+            "x[3] given no elements": ({"num_entries": 3, "null_terminated": False, "dynamic": False}, [], "raise"),
+            "x[0] given no elements": ({"num_entries": 0, "null_terminated": False, "dynamic": False}, [], "_write_array"),
+            "x[n] given 4 elements": ({"num_entries": expression("n", 4), "null_terminated": False, "dynamic": True}, [1, 2, 3, 4], "_write_array"),
+            "x[] given 2 elements": ({"num_entries": None, "null_terminated": True, "dynamic": True}, [1, 2], "_write_0"),
+        }
+        for label, (attrs, data, want) in writes.items():
+            calls = []
+            elem = Sym("elem", {}, {"_write_array": Host(lambda s, d, calls=calls: calls.append(("_write_array", list(d))) or len(d)),
+                                    "_write_0": Host(lambda s, d, calls=calls: calls.append(("_write_0", list(d))) or len(d) + 1)})
+            cls = Sym("arr", {"type": elem, **attrs})
+            try:
+                Evaluator(env, steps=2000).call_user(UserFunc(wr.node), [cls, Sym("stream"), list(data)], {})
+                got = calls[0] if len(calls) == 1 else calls
+            except Raised:
+                got = "raise"
+            out["cases"] += 1
+            ok = got == "raise" if want == "raise" else (isinstance(got, tuple) and got == (want, list(data)))
+            if not ok:
+                out["write_bad"].append((label, got, want))
+        return out
+    except Refused:
+        return None
+    except (TypeError, KeyError, IndexError, AttributeError):
+        return None
